@@ -65,10 +65,19 @@ func init() {
 			for k := 0; k < 5; k++ {
 				out = append(out, cs("VH_C08_Ctor", k))
 			}
+			for i := range auto.Stack {
+				out = append(out, cs("VH_C08_StackValues", i, 0, 0, q(tier, 1, 2)), cs("VH_C08_StackValues", i, 0, 1, 1))
+				if tier == "thorough" {
+					out = append(out, cs("VH_C08_StackValues", i, 3, 0, 1))
+				}
+			}
+			for i := range auto.Cond {
+				out = append(out, cs("VH_C08_CondValues", i, 0, q(tier, 1, 2)), cs("VH_C08_CondValues", i, 2, 1))
+			}
 			return out
 		},
 		boundsText: map[string]string{
-			"quick":    "stack length n<=4 (spare capacity<=1 for n<=2), Traverse path length<=3, constructor capacity argument<=64; every int argument, option bits, kind, FIFO flag, capacity field: all values",
+			"quick":    "values: every exported Stack/Condition method x a catalogue of 27 values for each `any` argument (variadics of length 0..1 quick / 0..2 thorough), option bits clear, kinds AND and LIST on initialised receivers with nested content; indices: stack length n<=4 (spare capacity<=1 for n<=2), Traverse path length<=3, constructor capacity argument<=64; every int argument, option bits, kind, FIFO flag, capacity field: all values",
 			"thorough": "stack length n<=6 (spare capacity<=2 for n<=4), Traverse path length<=3, constructor capacity argument<=64; every int argument, option bits, kind, FIFO flag, capacity field: all values",
 		},
 		outside: "stacks longer than the bound; constructor capacities above 64 (allocation size only); element values outside the harness catalogue",
